@@ -1,5 +1,102 @@
+(* C33 — URLs serialize to strings that parse back to the same URL.
+   [crate] is the `url` crate (url::Url::parse as seen through the accessors gix uses); it is a
+   parameter.  RT crate s  :=  forall u, parse crate s = Ok u ->
+                               exists s', to_bstring u = Ok s' /\ parse crate s' = Ok u. *)
 From GixV.Base Require Import Bytes BytesFacts Outcome.
-From GixV.C33 Require Import Model Proofs.
+From GixV.C33 Require Import Model Proofs ProofsScp ProofsUrl.
 
+(* Local paths: every byte string that is classified as a path (no "://", and no ':' or a '/'
+   before the first ':'), for every behaviour of the url crate. *)
 Theorem local_path_round_trip : forall crate s, find_scheme s = ILocal -> RT crate s.
 Proof. exact local_RT. Qed.
+
+(* file:// URLs (any spelling of "file", any host, any bytes): gix parses them itself. *)
+Theorem file_url_round_trip : forall crate s pe,
+  find_scheme s = IUrl pe -> eq_ignore_ascii_case (firstn pe s) (bs "file") = true -> RT crate s.
+Proof. exact file_RT. Qed.
+
+(* scp-like `[user@]host:path`, every path (it is kept verbatim), relative to the crate's contract
+   for the host part. *)
+Theorem scp_like_round_trip : forall crate s colon,
+  find_scheme s = IScp colon -> scp_contract crate (firstn colon s) -> RT crate s.
+Proof. exact scp_RT. Qed.
+
+(* URL form, relative to the crate's contract (its normal form is a fixed point). The length limit,
+   the scheme aliases, the missing-path and relative-URL checks and the dispatch are gix's. *)
+Theorem url_form_round_trip : forall crate s pe,
+  find_scheme s = IUrl pe -> eq_ignore_ascii_case (firstn pe s) (bs "file") = false ->
+  url_contract crate s -> RT crate s.
+Proof. exact url_RT. Qed.
+
+(* all forms together *)
+Definition crate_contract (crate : crate_fn) (s : bytes) : Prop :=
+  match find_scheme s with
+  | ILocal => True
+  | IScp colon => scp_contract crate (firstn colon s)
+  | IUrl pe => if eq_ignore_ascii_case (firstn pe s) (bs "file") then True else url_contract crate s
+  end.
+
+Theorem round_trip : forall crate s, crate_contract crate s -> RT crate s.
+Proof.
+  intros crate s H. unfold crate_contract in H.
+  destruct (find_scheme s) as [pe|colon|] eqn:E.
+  - destruct (eq_ignore_ascii_case (firstn pe s) (bs "file")) eqn:Ef.
+    + exact (file_RT crate s pe E Ef).
+    + exact (url_RT crate s pe E Ef H).
+  - exact (scp_RT crate s colon E H).
+  - exact (local_RT crate s E).
+Qed.
+
+(* parse neither panics nor loops, and whatever it returns can be serialized (the `unreachable!`
+   of write_to is not reached), provided the crate reports a user only together with a host. *)
+Theorem parse_total : forall crate s, user_needs_host crate ->
+  parse crate s <> Panic /\ parse crate s <> OutOfFuel.
+Proof. exact parse_no_panic. Qed.
+
+Theorem parsed_url_serializes : forall crate s u, user_needs_host crate ->
+  parse crate s = Ok u -> exists ser, to_bstring u = Ok ser.
+Proof. exact parsed_serializes. Qed.
+
+(* cutting a string at an ASCII byte preserves UTF-8 validity of both halves (used for ':' ) *)
+Theorem utf8_cut_at_ascii : forall a x r, is_ascii x = true ->
+  utf8_valid (a ++ x :: r) = utf8_valid a && utf8_valid (x :: r).
+Proof. exact utf8_cut'. Qed.
+
+(* ---- non-vacuity: the hypotheses are satisfiable, with [rparse] (the restricted-grammar parser
+        of Model.v that the correspondence run compares with the real crate) as the crate -------- *)
+
+Example ex_local : find_scheme (bs "./dir/a:b") = ILocal /\ find_scheme (bs "/abs/path") = ILocal.
+Proof. split; reflexivity. Qed.
+
+Example ex_file : find_scheme (bs "FILE://Host/p") = IUrl 4
+  /\ eq_ignore_ascii_case (firstn 4 (bs "FILE://Host/p")) (bs "file") = true
+  /\ exists u, parse rparse (bs "FILE://Host/p") = Ok u /\ u_host u = Some (bs "Host").
+Proof. repeat split. eexists. split; reflexivity. Qed.
+
+Example ex_scp : find_scheme (bs "git@github.com:byron/gitoxide.git") = IScp 14
+  /\ scp_contract rparse (firstn 14 (bs "git@github.com:byron/gitoxide.git"))
+  /\ exists u, parse rparse (bs "git@github.com:byron/gitoxide.git") = Ok u
+       /\ u_user u = Some (bs "git") /\ u_host u = Some (bs "github.com") /\ u_alt u = true.
+Proof.
+  split; [reflexivity|]. split.
+  - intros c H. vm_compute in H. injection H as <-.
+    repeat match goal with |- _ /\ _ => split end; try reflexivity; try (intros Hx; discriminate Hx).
+    eexists. split; [vm_compute; reflexivity|]. repeat split.
+  - eexists. split; [vm_compute; reflexivity|]. repeat split.
+Qed.
+
+Example ex_url : find_scheme (bs "ssh+git://git:pw@github.com:2222/byron/gitoxide.git") = IUrl 7
+  /\ url_contract rparse (bs "ssh+git://git:pw@github.com:2222/byron/gitoxide.git")
+  /\ exists u, parse rparse (bs "ssh+git://git:pw@github.com:2222/byron/gitoxide.git") = Ok u
+       /\ u_scheme u = Ssh /\ u_password u = Some (bs "pw") /\ u_port u = Some 2222%N.
+Proof.
+  split; [reflexivity|]. split.
+  - intros c ser H Hs. vm_compute in H. injection H as <-. vm_compute in Hs. injection Hs as <-.
+    cbv zeta.
+    repeat match goal with |- _ /\ _ => split end; try reflexivity.
+    eexists. split; [vm_compute; reflexivity|]. repeat split.
+  - eexists. split; [vm_compute; reflexivity|]. repeat split.
+Qed.
+
+Example ex_user_needs_host : user_needs_host (fun _ => Some (mkCurl (bs "ssh") [] None None None (bs "/p") false)).
+Proof. intros x c H _. injection H as <-. reflexivity. Qed.
